@@ -187,6 +187,23 @@ ROUND9 = {
 }
 
 
+ROUND10 = {
+    "C01": " Round 10: autocatalytic family (reactions that return more copies of a reactant than they take) at low counts.",
+    "C02": " Round 10: a species declared with a leading underscore next to a name without it.",
+    "C03": " Round 10: model of the safe interface's derivative (derivativeSafe) with theorems derivRowSafe_idle / _pos, bit-exact including refusals.",
+    "C04": " Round 10: rtol / atol keywords on small concentrations; requested times thousands of periods apart.",
+    "C05": " Round 10: enzyme mechanism under the names E, S, ES, P through the safe interface.",
+    "C07": " Round 10: deterministic runs whose time points lie hundreds of thousands of solver steps apart.",
+    "C08": " Round 10: an interface kept while the model is initialised again and its values change.",
+    "C10": " Round 10: delay queue finer than the volume step in the delay+volume simulator.",
+    "C11": " Round 10: division reported at the last grid time (known finding for the delay+volume simulator, asserted for the volume simulator).",
+    "C15": " Round 10: two estimated parameters with the prior declared in both orders.",
+    "C16": " Round 10: check_prior on values for every interface class with and without log_space_parameters.",
+    "C18": " Round 10: explicitly time-dependent rates at t = 0 and later, every scheme, module functions and object.",
+    "C20": " Round 10: queues with as many or more reactions than slots.",
+}
+
+
 def main():
     props = [json.loads(l) for l in open(os.path.join(HERE, "properties.jsonl"))]
     checks, na = [], []
@@ -194,7 +211,7 @@ def main():
         pid = p["id"]
         if pid in CLAIMED:
             c = dict(CLAIMED[pid])
-            c["text"] = c["text"] + ROUND4.get(pid, "") + ROUND5.get(pid, "") + ROUND6.get(pid, "") + ROUND8.get(pid, "") + ROUND9.get(pid, "")
+            c["text"] = c["text"] + ROUND4.get(pid, "") + ROUND5.get(pid, "") + ROUND6.get(pid, "") + ROUND8.get(pid, "") + ROUND9.get(pid, "") + ROUND10.get(pid, "")
             checks.append({
                 "property_id": pid,
                 "quick_cmd": "./check %s quick" % pid,
